@@ -47,7 +47,7 @@ class C08(IRProp):
     id = "C08"
     prop_file = "Properties/C08.v"
     tag = "c08"
-    genopts = dict(with_aux=False, nfun_max=2, to_proxy=False, cfi_patches=True, data_first=0.4)
+    genopts = dict(with_aux=False, nfun_max=2, cfi_patches=True, data_first=0.4, whole_del=0.1, inner_data=0.3)
     trusted_base = IRProp.base_trusted + ["gtirb_rewriting.dwarf.cfi_eval (verified separately as C15) is the evaluator the oracle runs before and after"]
     assumptions = ["patches of the generator carry no CFI directives", "inputs whose directives do not evaluate cleanly are outside the quantifier and skipped"]
     level_rule = ("random x86-64 modules whose functions carry startproc/def_cfa ... endproc with def_cfa_offset, undefined, balanced "
